@@ -26,6 +26,7 @@ func init() {
 			"R3 refusal: every function with constant accesses to a []byte parameter has a length guard covering its largest bound (unexported functions: every call site passes a constant-width slice of sufficient width); narrowing integer conversions in writers are preceded by a range check of the source that returns an error. " +
 			"R4 stream codecs: for every type with a Marshal/Unmarshal (or MarshalToBytes/UnmarshalFromBytes) pair the ordered field sequences agree; fixed-size HOB writers return the sum of the static sizes of what they write. " +
 			"R5 read counts: every io.Reader.Read call in eventlog and ovmf/abi has its count compared with the requested length (or is io.ReadFull). " +
+			"R7 a stream encoder (function of eventlog / ovmf/abi taking a writer) never writes a prefix x[:k] of an encoded field unless len(x) == k was established on the path: an over-long value is refused, not truncated. " +
 			"R6 no slice in the codec packages is extended beyond its own length (bound computed upwards from len(x) or admitted by cap(x)): padding is appended, never uncovered from the backing array. R1 additionally treats copy(p[lo:hi], src) in a range-writer helper as filling the range only if the helper itself enforces len(src) == hi-lo. " +
 			"Not covered: decode∘encode identity as values, zero-padding tolerance, GUID byte-order correctness.",
 		Assumptions: []string{"go/types constant evaluation", "encoding/binary primitive widths", "var arrays are zero-initialised"},
@@ -332,7 +333,7 @@ func runC18(c *Ctx) {
 			if pr.m == nil || pr.u == nil {
 				continue
 			}
-			mf, uf := fieldSequence(pr.m), fieldSequence(pr.u)
+			mf, uf := fieldSequence(pr.m, ep.TypesInfo), fieldSequence(pr.u, ep.TypesInfo)
 			if len(mf) < 2 && len(uf) < 2 {
 				continue
 			}
@@ -507,8 +508,102 @@ func runC18(c *Ctx) {
 			}
 		}
 	}
+	// ---------------- R7 no silent truncation in stream encoders ----------------
+	// a stream encoder (a function of the codec packages that takes an io.Writer) that re-slices a value field to
+	// x[:k] before writing it drops the bytes beyond k; that is a refusal case unless len(x) == k was established.
+	nTr := 0
+	for _, f := range c.P.RepoFunctions() {
+		switch load.RelPkg(f) {
+		case "eventlog", "ovmf/abi":
+		default:
+			continue
+		}
+		if c.isTestFunc(f) || !hasWriterParam(f) {
+			continue
+		}
+		for _, b := range f.Blocks {
+			for _, in := range b.Instrs {
+				sx, ok := in.(*ssa.Slice)
+				if !ok || sx.High == nil {
+					continue
+				}
+				if _, isSlice := sx.X.Type().Underlying().(*types.Slice); !isSlice {
+					continue
+				}
+				if _, isK := sx.High.(*ssa.Const); isK {
+					continue // constant widths are the fixed-layout rules' business (R1/R3)
+				}
+				if a, ok := lenArg(sx.High); ok && sameBytes(a, sx.X) {
+					continue
+				}
+				// the sliced value is data being encoded (a field of the receiver / a parameter), not a scratch buffer
+				fromField := false
+				if u, ok := sx.X.(*ssa.UnOp); ok {
+					_, fromField = u.X.(*ssa.FieldAddr)
+				}
+				if !fromField {
+					continue
+				}
+				nTr++
+				eq := false
+				for _, cf := range dominatingConds(b) {
+					bo, ok := cf.Cond.(*ssa.BinOp)
+					if !ok {
+						continue
+					}
+					if !((bo.Op == token.EQL && cf.Val) || (bo.Op == token.NEQ && !cf.Val)) {
+						continue
+					}
+					for _, pr := range [][2]ssa.Value{{bo.X, bo.Y}, {bo.Y, bo.X}} {
+						if a, ok := lenArg(stripConv(pr[0])); ok && sameBytes(a, sx.X) && sameValueModConv(pr[1], sx.High) {
+							eq = true
+						}
+					}
+				}
+				c.S.Check(eq, "R7", load.FuncName(f)+":truncating write", c.pos(sx.Pos()),
+					"the field is cut to a length it was checked to have exactly",
+					"the encoder writes only a prefix x[:k] of a field without having established len(x) == k: an over-long value is silently truncated instead of refused, and decoding the output gives a different value")
+			}
+		}
+	}
+	c.S.OK("R7", "stream encoders:no silent truncation", "", fmt.Sprintf("%d prefix re-slices of encoded fields in stream encoders examined", nTr), false)
 	c.S.Count("bounded_slices_examined", nSl)
 	c.S.OK("R6", "codec packages:no reslice past len", "", fmt.Sprintf("%d slice expressions with an upper bound examined; none extends a slice beyond its length", nSl), false)
+}
+
+// hasWriterParam: some parameter's type has a Write([]byte) (int, error) method (io.Writer, *bytes.Buffer, …).
+func hasWriterParam(f *ssa.Function) bool {
+	for _, p := range f.Params {
+		if hasMethodNamed(p.Type(), "Write") {
+			return true
+		}
+	}
+	return false
+}
+
+func hasMethodNamed(t types.Type, name string) bool {
+	ms := types.NewMethodSet(t)
+	for i := 0; i < ms.Len(); i++ {
+		if ms.At(i).Obj().Name() == name {
+			return true
+		}
+	}
+	if _, isPtr := t.(*types.Pointer); !isPtr {
+		if _, isIface := t.Underlying().(*types.Interface); !isIface {
+			ms = types.NewMethodSet(types.NewPointer(t))
+			for i := 0; i < ms.Len(); i++ {
+				if ms.At(i).Obj().Name() == name {
+					return true
+				}
+			}
+		}
+	}
+	return false
+}
+
+// sameValueModConv: a and b are the same SSA value up to integer conversions.
+func sameValueModConv(a, b ssa.Value) bool {
+	return stripConv(a) == stripConv(b)
 }
 
 func maxInt64(a, b int64) int64 {
@@ -677,7 +772,7 @@ func recvTypeName(fd *ast.FuncDecl) string {
 
 // fieldSequence: the receiver fields referenced (as arguments of calls, or as
 // receivers of Read/Write on them) in source order, without repeats in a row.
-func fieldSequence(fd *ast.FuncDecl) []string {
+func fieldSequence(fd *ast.FuncDecl, info *types.Info) []string {
 	recv := ""
 	if len(fd.Recv.List[0].Names) > 0 {
 		recv = fd.Recv.List[0].Names[0].Name
@@ -688,6 +783,33 @@ func fieldSequence(fd *ast.FuncDecl) []string {
 			out = append(out, s)
 		}
 	}
+	// a call takes part in the encoding only if it involves a stream: an argument or the receiver of the call has
+	// a Read or Write method (io.Reader / io.Writer / *bytes.Buffer …). Error messages and length tests that merely
+	// mention a field do not.
+	isStream := func(x ast.Expr) bool {
+		tv, ok := info.Types[x]
+		if !ok || tv.Type == nil {
+			return false
+		}
+		if b, isBasic := tv.Type.Underlying().(*types.Basic); isBasic && b.Kind() != types.Invalid {
+			return false
+		}
+		return hasMethodNamed(tv.Type, "Write") || hasMethodNamed(tv.Type, "Read")
+	}
+	involvesStream := func(call *ast.CallExpr) bool {
+		for _, a := range call.Args {
+			if isStream(a) {
+				return true
+			}
+			if u, ok := a.(*ast.UnaryExpr); ok && u.Op == token.AND && isStream(u.X) {
+				return true
+			}
+		}
+		if sel, ok := call.Fun.(*ast.SelectorExpr); ok && isStream(sel.X) {
+			return true
+		}
+		return false
+	}
 	ast.Inspect(fd.Body, func(n ast.Node) bool {
 		if rs, ok := n.(*ast.RangeStmt); ok {
 			if sel, ok := rs.X.(*ast.SelectorExpr); ok {
@@ -697,9 +819,39 @@ func fieldSequence(fd *ast.FuncDecl) []string {
 			}
 			return true
 		}
+		if as, ok := n.(*ast.AssignStmt); ok {
+			// recv.F = f(…) / append(recv.F, decoded): the decoder fills the field here
+			hasCall := false
+			for _, r := range as.Rhs {
+				if _, isCall := ast.Unparen(r).(*ast.CallExpr); isCall {
+					hasCall = true
+				}
+			}
+			if hasCall {
+				for _, l := range as.Lhs {
+					if sel, ok := ast.Unparen(l).(*ast.SelectorExpr); ok {
+						if id, ok := sel.X.(*ast.Ident); ok && id.Name == recv && recv != "" {
+							add(sel.Sel.Name)
+						}
+					}
+				}
+			}
+			return true
+		}
 		call, ok := n.(*ast.CallExpr)
 		if !ok {
 			return true
+		}
+		if !involvesStream(call) {
+			return true
+		}
+		// x.F.Marshal(w): the field is the receiver of the call
+		if sel, ok := call.Fun.(*ast.SelectorExpr); ok {
+			if inner, ok := ast.Unparen(sel.X).(*ast.SelectorExpr); ok {
+				if id, ok := inner.X.(*ast.Ident); ok && id.Name == recv && recv != "" {
+					add(inner.Sel.Name)
+				}
+			}
 		}
 		for _, a := range call.Args {
 			ast.Inspect(a, func(m ast.Node) bool {
